@@ -9,6 +9,10 @@ TYPE_NAMES = [
     "alloc::collections::btree::map::BTreeMap<hx_run::registry::ty::a::X, alloc::vec::Vec<hx_run::registry::ty::b::Y>>",
     "(hx_run::registry::ty::a::X, hx_run::registry::ty::b::X)",
     "fn(hx_run::registry::ty::a::X) -> hx_run::registry::ty::b::Y",
+    # type syntax other than a path (F13: the label must keep it whole)
+    "&alloc::string::String", "(alloc::string::String, i32)", "[alloc::string::String; 2]",
+    "fn(alloc::string::String) -> alloc::vec::Vec<u8>", "alloc::boxed::Box<dyn core::fmt::Debug>", "*const u8",
+    "alloc::vec::Vec<alloc::string::String>", "core::option::Option<&alloc::string::String>",
 ]
 
 INT_KINDS = "irgud"
@@ -45,10 +49,11 @@ def strip_raw(s):
 
 
 def type_display(raw):
+    """EntryType::display_name (repaired): strip leading `ident::` components only."""
     cur = raw
     while "::" in cur:
         prev, nxt = cur.split("::", 1)
-        if "<" in prev:
+        if not all(ch.isalnum() or ch == "_" for ch in prev):
             break
         cur = nxt
     return cur
